@@ -20,23 +20,26 @@ from .. import core, molgen, wire
 from ..gen import gen_query
 
 LEVEL = 'proof'
-LEVEL_TEXT = ('The comparison methods, the label computation and the SMARTS reader are small, finite-branching functions: '
-              'their executable Lean models are proved equal to a declarative semantics written from the docstrings for ALL '
-              'query atoms / atoms / bonds (no bound), the any-metal table is proved over the regenerated element flags, the '
-              'reader is proved to reject only with IncorrectSmarts and to read back a canonical printing of the documented '
-              'subset; the models are tied to the code by regenerated tables and differential execution on every primitive '
-              'pair x environment and on exhaustive short strings. Proof is the right level because the quantifier of the '
-              'property (all primitives x all environments) is closed by the theorems, not sampled.')
-LEVEL_NOTE = ('Lean kernel; hand-written models validated by correspondence (not a proof about the Python text); gen_query '
-              'translator; ring perception (sssr) is an input of the label model (C06); stereo matching in get_mapping (C12/C07) '
-              'and the compiled matcher (C09) are outside; SMARTS strings are ASCII without inner whitespace.')
+LEVEL_TEXT = ('The comparison methods, the label computation, the setters and the SMARTS reader are small functions with finitely many '
+              'branches: their executable Lean models are proved equal to a declarative semantics written from the docstrings for ALL '
+              'query atoms / atoms / bonds / bond lists (no bound); the reader is proved, for every well-formed documented bracket atom '
+              '(unbounded numbers and list lengths), to return exactly the documented query atom, to reject every text containing a '
+              'character no documented construct uses, and to raise nothing but IncorrectSmarts; table facts (any-metal, not_dict, '
+              'charge_dict, setter domains) are proved over tables regenerated from the source on every run. The models are tied to '
+              'the code by differential execution on every primitive, primitive pair, API argument form x environment and on '
+              'exhaustive short strings. Proof is the right level because the quantifier of the property (all primitives x all '
+              'environments, all strings of the documented subset) is closed by the theorems, not sampled.')
+LEVEL_NOTE = ('Lean kernel; hand-written models validated by correspondence (not a proof about the Python text); gen_query translator; '
+              'ring perception (sssr) is an input of the label model (C06); stereo matching in get_mapping (C12/C07) and the compiled '
+              'matcher (C09) are outside; SMARTS strings are ASCII without inner whitespace; branches / ring closures / organic-subset '
+              'atoms in SMARTS text are validated relationally against the SMILES reader, not modelled.')
 TECHNIQUE = 'Lean 4 theorems over an executable model of query __eq__/calc_labels/SMARTS reader + regenerated tables + differential execution'
 HAS_DRIVER = True
 EXTRA_MODULES = []
 FINDINGS_MODULE = None
 RULE = ('queries: every documented primitive with every admissible value, every unordered pair of primitives from different '
         'families, element / list / any / any-metal heads, isotope, charge, radical, API-built (from_atom with all 32 flag sets, '
-        'ListElement, AnyMetal); environments: distinct (Z, isotope, charge, radical, neighbours, hybridisation, ring sizes, H, '
+        'ListElement, AnyMetal; constructor and setter calls with None / int / list / tuple arguments incl. 0 and the maxima); environments: distinct (Z, isotope, charge, radical, neighbours, hybridisation, ring sizes, H, '
         'heteroatoms) tuples of corpus / handmade / decorated-graph atoms plus a synthetic attribute grid; bonds: all 31 order '
         'sets x ring mark x all (order, ring) bonds; strings: all bracket contents up to a bounded length over the documented '
         'alphabet, grammar-generated documented atoms, single-edit corruptions, all bond-token strings up to length 4 between '
@@ -56,7 +59,7 @@ MUST_REJECT = ['[C&D2]', '[C;D2&h1]', '[C,N&O]', '[!C]', '[C;!D2]', '[C;!r5]', '
                '[C;D1,h1]', '[C;r5,D2]', '[C;D15]', '[C;h15]', '[C;x15]', '[C;z0]', '[C;z5]', '[C;r2]', '[C;r1]', '[C;r0]', '[C;D]', '[C;r]',
                '[C+5]', '[C-5]', '[;D2]', '[]', '[C]!~[C]', '[C]-,=,#[C]', '[C]@[C]', '[C]!@[C]', '[C];@[C]', '[C];!@[C]', '[C]-;@@[C]',
                '[C]-;!!@[C]', '[C]--[C]', '[C]-', '-[C]', '[C]!', '[C]-,[C]', '[Xx]', '[C,Xx]', '[#0]', '[#119]', '[M+]', '[M;h1]', '[M;r5]',
-               '[M;x1]', '[2A]', '[13C,N]']
+               '[M;x1]', '[2A]', '[13C,N]', '[C:3;D2]', '[C:1:2]', '[C:3@]', '[C;D2:0]', '[C:03]']
 
 BRACKET_ALPHABET = 'CNOM#A,;!RahDrxz123+-:@&5'
 BOND_ALPHABET = '-=#:~/\\.;,!@'
